@@ -1,5 +1,918 @@
-use fuel_core::service::genesis::verif_hooks::{ImportTask, ImportTable, Handler, migration_name, ProgressReporter, CancellationToken, SnapshotImporter};
+//! Genesis cluster: C40 (resumable import) and C39 (export -> regenesis round trip).
+//!
+//! C40 drives the real `ImportTask::{new, run}` (hook `service::genesis::verif_hooks`) over
+//! in-memory `GenesisDatabase`s. Every handler is wrapped by `Wrap`, which records the calls
+//! and injects the failures of the session plan; the groups come through `Feed`, which tells
+//! the wrapper the index of the group just pulled and injects read errors; the cancellation
+//! signal `Cancel` fires once the session completed a given number of groups.
+//!
+//! input  (mode spec init plans)
+//!   mode 0  spec = ((tid ((k v) ...) ...) ...)   recording handlers of this file
+//!           tid 100 "Coins -> Coins": insert coin k with amount v, error if present
+//!           tid 101 "Messages -> Messages": insert message k with amount v + amount of
+//!           coin k (0 if none), error if present
+//!   mode 1  spec = (seed g n_coins n_msgs n_blobs ((n_state n_balances) ...) bad)
+//!           the real on-chain/off-chain handlers in the order of run_workers over a generated
+//!           JSON snapshot read back with group size g; bad = () | (p): coin p is invalid
+//!   init    ((tid v) ...) progress rows present before the first session
+//!   plans   ((cancel fail) ...) one interrupted session each; cancel = () | (c): the signal
+//!           reports cancelled once c groups were completed in the session; fail = () |
+//!           (tid idx kind): 0 reading the group fails, 1 the handler fails before writing,
+//!           2 after writing the first half of the group, 3 after writing the whole group
+//! output (sessions final uninterrupted digests dump)
+//!   session = (res ((tid idx committed) ...) ((tid progress) ...)); res 0 Ok, 1 the error
+//!   "Import cancelled", 2 any other error; digests = (on off on_u off_u); dump (mode 0) =
+//!   (coins msgs) of the resumed database.
+mod roundtrip;
+
+use fuel_core::{
+    database::{
+        database_description::{off_chain::OffChain, on_chain::OnChain, DatabaseDescription},
+        genesis_progress::{GenesisProgressInspect, GenesisProgressMutate},
+        GenesisDatabase,
+    },
+    fuel_core_graphql_api::storage::{
+        blocks::FuelBlockIdsToHeights,
+        coins::OwnedCoins,
+        contracts::ContractsInfo,
+        messages::{OwnedMessageIds, SpentMessages},
+        old::{OldFuelBlockConsensus, OldFuelBlocks, OldTransactions},
+        transactions::{OwnedTransactions, TransactionStatuses},
+    },
+    service::genesis::{
+        verif_hooks::{migration_name, CancellationToken, Handler, ImportTable, ImportTask, ProgressReporter},
+        NotifyCancel,
+    },
+};
+use fuel_core_chain_config::{
+    BlobConfig, ChainConfig, CoinConfig, ContractBalanceConfig, ContractConfig, ContractStateConfig,
+    LastBlockConfig, MessageConfig, SnapshotReader, SnapshotWriter, StateConfig, TableEntry,
+};
+use fuel_core_storage::{
+    iter::{IterDirection, IterableStore, IteratorOverTable},
+    kv_store::StorageColumn,
+    tables::{
+        merkle::{FuelBlockMerkleData, FuelBlockMerkleMetadata},
+        Coins, ContractsAssets, ContractsLatestUtxo, ContractsRawCode, ContractsState, FuelBlocks, Messages,
+        ProcessedTransactions, SealedBlockConsensus, Transactions,
+    },
+    transactional::StorageTransaction,
+    StorageAsMut, StorageAsRef,
+};
+use fuel_core_types::{
+    blockchain::primitives::DaBlockHeight,
+    entities::{
+        coins::coin::{CompressedCoin, CompressedCoinV1},
+        relayer::message::{Message, MessageV1},
+    },
+    fuel_crypto::Hasher,
+    fuel_tx::{AssetId, UtxoId},
+    fuel_types::{Address, BlobId, BlockHeight, Bytes32, ContractId, Nonce},
+    fuel_vm::BlobData,
+};
+use std::{
+    path::PathBuf,
+    sync::{
+        atomic::{AtomicU64, AtomicUsize, Ordering},
+        Arc, Mutex,
+    },
+};
+use vcommon::{catch, Rng, T};
+
+pub const GENESIS_HEIGHT: u32 = 10;
+pub const GENESIS_DA_HEIGHT: u64 = 10;
+
+static COUNTER: AtomicU64 = AtomicU64::new(0);
+
+pub fn temp_dir() -> PathBuf {
+    let n = COUNTER.fetch_add(1, Ordering::Relaxed);
+    let p = PathBuf::from(format!("/verif/target-genesis/tmp/h-genesis-{}-{}", std::process::id(), n));
+    let _ = std::fs::remove_dir_all(&p);
+    std::fs::create_dir_all(&p).expect("temp dir");
+    p
+}
+
+// ---------------------------------------------------------------------------------------
+// session control: plan, recording wrapper, group feed, cancellation signal
+
+#[derive(Clone, Debug, Default)]
+struct Plan {
+    cancel_at: Option<usize>,
+    fail: Option<(u64, usize, u64)>,
+}
+
+struct Ctl {
+    plan: Plan,
+    cur_idx: AtomicUsize,
+    done: AtomicUsize,
+    events: Mutex<Vec<(u64, usize, bool)>>,
+}
+
+impl Ctl {
+    fn new(plan: &Plan) -> Arc<Self> {
+        Arc::new(Ctl {
+            plan: plan.clone(),
+            cur_idx: AtomicUsize::new(usize::MAX),
+            done: AtomicUsize::new(0),
+            events: Mutex::new(vec![]),
+        })
+    }
+    fn fail_here(&self, tid: u64, idx: usize) -> Option<u64> {
+        match self.plan.fail {
+            Some((t, i, k)) if t == tid && i == idx => Some(k),
+            _ => None,
+        }
+    }
+    fn record(&self, tid: u64, idx: usize, committed: bool) {
+        self.events.lock().unwrap().push((tid, idx, committed));
+    }
+}
+
+struct Wrap<H> {
+    inner: H,
+    tid: u64,
+    ctl: Arc<Ctl>,
+}
+
+impl<H: ImportTable> ImportTable for Wrap<H> {
+    type TableInSnapshot = H::TableInSnapshot;
+    type TableBeingWritten = H::TableBeingWritten;
+    type DbDesc = H::DbDesc;
+
+    fn process(
+        &mut self,
+        group: Vec<TableEntry<Self::TableInSnapshot>>,
+        tx: &mut StorageTransaction<&mut GenesisDatabase<Self::DbDesc>>,
+    ) -> anyhow::Result<()> {
+        let idx = self.ctl.cur_idx.load(Ordering::SeqCst);
+        match self.ctl.fail_here(self.tid, idx) {
+            Some(1) => anyhow::bail!("injected failure before the handler"),
+            Some(2) => {
+                let half = group.len().div_ceil(2);
+                let part: Vec<_> = group.into_iter().take(half).collect();
+                let _ = self.inner.process(part, tx);
+                self.ctl.record(self.tid, idx, false);
+                anyhow::bail!("injected failure inside the group")
+            }
+            Some(3) => {
+                let _ = self.inner.process(group, tx);
+                self.ctl.record(self.tid, idx, false);
+                anyhow::bail!("injected failure after the group")
+            }
+            _ => {}
+        }
+        match self.inner.process(group, tx) {
+            Ok(()) => {
+                self.ctl.record(self.tid, idx, true);
+                self.ctl.done.fetch_add(1, Ordering::SeqCst);
+                Ok(())
+            }
+            Err(e) => {
+                self.ctl.record(self.tid, idx, false);
+                Err(e)
+            }
+        }
+    }
+}
+
+struct Feed<I> {
+    inner: I,
+    pos: usize,
+    tid: u64,
+    ctl: Arc<Ctl>,
+}
+
+impl<I, X> Iterator for Feed<I>
+where
+    I: Iterator<Item = anyhow::Result<X>>,
+{
+    type Item = anyhow::Result<X>;
+    fn next(&mut self) -> Option<Self::Item> {
+        let item = self.inner.next()?;
+        let idx = self.pos;
+        self.pos += 1;
+        self.ctl.cur_idx.store(idx, Ordering::SeqCst);
+        if self.ctl.fail_here(self.tid, idx) == Some(0) {
+            return Some(Err(anyhow::anyhow!("injected read error")));
+        }
+        Some(item)
+    }
+}
+
+#[derive(Clone)]
+struct Cancel(Arc<Ctl>);
+
+impl NotifyCancel for Cancel {
+    async fn wait_until_cancelled(&self) -> anyhow::Result<()> {
+        std::future::pending::<()>().await;
+        Ok(())
+    }
+    fn is_cancelled(&self) -> bool {
+        match self.0.plan.cancel_at {
+            Some(c) => self.0.done.load(Ordering::SeqCst) >= c,
+            None => false,
+        }
+    }
+}
+
+fn err_tag(e: &anyhow::Error) -> i128 {
+    if e.to_string() == "Import cancelled" {
+        1
+    } else {
+        2
+    }
+}
+
+#[derive(Clone)]
+pub struct Dbs {
+    pub on: GenesisDatabase<OnChain>,
+    pub off: GenesisDatabase<OffChain>,
+}
+
+impl Dbs {
+    pub fn new() -> Self {
+        Dbs { on: GenesisDatabase::<OnChain>::in_memory(), off: GenesisDatabase::<OffChain>::in_memory() }
+    }
+}
+
+/// sha256 over (column id, key, value) of every column, first 7 bytes as an integer
+pub fn digest<D>(db: &GenesisDatabase<D>) -> u64
+where
+    D: DatabaseDescription,
+{
+    let mut h = Hasher::default();
+    for column in enum_iterator::all::<D::Column>() {
+        for kv in db.iter_store(column, None, None, IterDirection::Forward) {
+            let (k, v) = kv.expect("iter");
+            h.input((column.id() as u64).to_be_bytes());
+            h.input((k.len() as u64).to_be_bytes());
+            h.input(&k);
+            h.input((v.len() as u64).to_be_bytes());
+            h.input(v.as_ref().as_slice());
+        }
+    }
+    let d = h.finalize();
+    let mut b = [0u8; 8];
+    b[1..].copy_from_slice(&d[..7]);
+    u64::from_be_bytes(b)
+}
+
+// ---------------------------------------------------------------------------------------
+// mode 0: recording handlers
+
+fn key32(k: u64) -> [u8; 32] {
+    let mut b = [0u8; 32];
+    b[24..].copy_from_slice(&k.to_be_bytes());
+    b
+}
+fn key_of(b: &[u8]) -> u64 {
+    u64::from_be_bytes(b[24..32].try_into().unwrap())
+}
+
+struct RecCoins;
+impl ImportTable for RecCoins {
+    type TableInSnapshot = Coins;
+    type TableBeingWritten = Coins;
+    type DbDesc = OnChain;
+    fn process(
+        &mut self,
+        group: Vec<TableEntry<Coins>>,
+        tx: &mut StorageTransaction<&mut GenesisDatabase>,
+    ) -> anyhow::Result<()> {
+        for e in group {
+            if tx.storage::<Coins>().contains_key(&e.key)? {
+                anyhow::bail!("present");
+            }
+            tx.storage_as_mut::<Coins>().insert(&e.key, &e.value)?;
+        }
+        Ok(())
+    }
+}
+
+struct RecMsgs;
+impl ImportTable for RecMsgs {
+    type TableInSnapshot = Messages;
+    type TableBeingWritten = Messages;
+    type DbDesc = OnChain;
+    fn process(
+        &mut self,
+        group: Vec<TableEntry<Messages>>,
+        tx: &mut StorageTransaction<&mut GenesisDatabase>,
+    ) -> anyhow::Result<()> {
+        for e in group {
+            if tx.storage::<Messages>().contains_key(&e.key)? {
+                anyhow::bail!("present");
+            }
+            let utxo = UtxoId::new(Bytes32::from(*e.key), 0);
+            let add = match tx.storage::<Coins>().get(&utxo)? {
+                Some(c) => *c.amount(),
+                None => 0,
+            };
+            let m: Message = MessageV1 {
+                nonce: e.key,
+                amount: e.value.amount().checked_add(add).expect("amount fits"),
+                ..Default::default()
+            }
+            .into();
+            tx.storage_as_mut::<Messages>().insert(&e.key, &m)?;
+        }
+        Ok(())
+    }
+}
+
+fn coin_entry(k: u64, v: u64) -> TableEntry<Coins> {
+    let value: CompressedCoin = CompressedCoinV1 { amount: v, ..Default::default() }.into();
+    TableEntry { key: UtxoId::new(Bytes32::from(key32(k)), 0), value }
+}
+fn msg_entry(k: u64, v: u64) -> TableEntry<Messages> {
+    let nonce = Nonce::from(key32(k));
+    let value: Message = MessageV1 { nonce, amount: v, ..Default::default() }.into();
+    TableEntry { key: nonce, value }
+}
+
+type RecTask = (u64, Vec<Vec<(u64, u64)>>);
+
+fn session_recording(tasks: &[RecTask], dbs: &Dbs, plan: &Plan) -> (i128, Vec<(u64, usize, bool)>) {
+    let ctl = Ctl::new(plan);
+    let token = CancellationToken::new(Cancel(ctl.clone()));
+    let mut res = 0i128;
+    for (tid, groups) in tasks {
+        if res != 0 {
+            break;
+        }
+        // spawn_worker_*: a table without groups gets no task
+        if groups.is_empty() {
+            continue;
+        }
+        let r = match *tid {
+            100 => {
+                let gs: Vec<anyhow::Result<Vec<TableEntry<Coins>>>> =
+                    groups.iter().map(|g| Ok(g.iter().map(|(k, v)| coin_entry(*k, *v)).collect())).collect();
+                let feed = Feed { inner: gs.into_iter(), pos: 0, tid: *tid, ctl: ctl.clone() };
+                ImportTask::new(
+                    Wrap { inner: RecCoins, tid: *tid, ctl: ctl.clone() },
+                    feed,
+                    dbs.on.clone(),
+                    ProgressReporter::default(),
+                )
+                .run(token.clone())
+            }
+            101 => {
+                let gs: Vec<anyhow::Result<Vec<TableEntry<Messages>>>> =
+                    groups.iter().map(|g| Ok(g.iter().map(|(k, v)| msg_entry(*k, *v)).collect())).collect();
+                let feed = Feed { inner: gs.into_iter(), pos: 0, tid: *tid, ctl: ctl.clone() };
+                ImportTask::new(
+                    Wrap { inner: RecMsgs, tid: *tid, ctl: ctl.clone() },
+                    feed,
+                    dbs.on.clone(),
+                    ProgressReporter::default(),
+                )
+                .run(token.clone())
+            }
+            t => panic!("recording task {t}"),
+        };
+        if let Err(e) = r {
+            res = err_tag(&e);
+        }
+    }
+    let evs = ctl.events.lock().unwrap().clone();
+    (res, evs)
+}
+
+fn dump_recording(dbs: &Dbs) -> T {
+    let coins: Vec<T> = dbs
+        .on
+        .iter_all::<Coins>(None)
+        .map(|r| {
+            let (k, c) = r.expect("coin");
+            T::l(vec![T::n(key_of(k.tx_id().as_ref())), T::n(*c.amount())])
+        })
+        .collect();
+    let msgs: Vec<T> = dbs
+        .on
+        .iter_all::<Messages>(None)
+        .map(|r| {
+            let (k, m) = r.expect("message");
+            T::l(vec![T::n(key_of(k.as_ref())), T::n(m.amount())])
+        })
+        .collect();
+    T::l(vec![T::l(coins), T::l(msgs)])
+}
+
+// ---------------------------------------------------------------------------------------
+// mode 1: the real handlers over a generated snapshot
+
+fn rand32(rng: &mut Rng, tag: u8, i: u64) -> [u8; 32] {
+    let mut b = [0u8; 32];
+    for c in b.chunks_mut(8) {
+        c.copy_from_slice(&rng.next().to_be_bytes());
+    }
+    // unique per (tag, i)
+    b[0] = tag;
+    b[1..9].copy_from_slice(&i.to_be_bytes());
+    b
+}
+
+fn owner(rng: &mut Rng) -> Address {
+    // three owners, so that balances of several coins/messages add up
+    Address::from([1 + rng.below(3) as u8; 32])
+}
+
+pub fn base_asset() -> AssetId {
+    *ChainConfig::local_testnet().consensus_parameters.base_asset_id()
+}
+
+/// deterministic snapshot content from (seed, sizes)
+pub fn gen_state(seed: u64, n_coins: u64, n_msgs: u64, n_blobs: u64, contracts: &[(u64, u64)], bad: Option<u64>) -> StateConfig {
+    let mut rng = Rng::new(seed ^ 0x5151);
+    let base = base_asset();
+    let mut coins: Vec<CoinConfig> = (0..n_coins)
+        .map(|i| CoinConfig {
+            tx_id: Bytes32::from(rand32(&mut rng, 1, i)),
+            output_index: rng.below(4) as u16,
+            tx_pointer_block_height: BlockHeight::from(rng.below(GENESIS_HEIGHT as u64 + 1) as u32),
+            tx_pointer_tx_idx: rng.below(5) as u16,
+            owner: owner(&mut rng).into(),
+            amount: 1 + rng.below(1000),
+            asset_id: if rng.chance(1, 2) { base } else { AssetId::from([7u8; 32]) },
+        })
+        .collect();
+    if let Some(p) = bad {
+        let p = p as usize;
+        if p < coins.len() {
+            if seed % 2 == 1 && p > 0 {
+                // the same UTXO id as coin 0: "Coin should not exist"
+                coins[p].tx_id = coins[0].tx_id;
+                coins[p].output_index = coins[0].output_index;
+            } else {
+                coins[p].tx_pointer_block_height = BlockHeight::from(GENESIS_HEIGHT + 1);
+            }
+        }
+    }
+    let messages = (0..n_msgs)
+        .map(|i| MessageConfig {
+            sender: owner(&mut rng),
+            recipient: owner(&mut rng),
+            nonce: Nonce::from(rand32(&mut rng, 2, i)),
+            amount: 1 + rng.below(1000),
+            data: if rng.chance(1, 2) { vec![] } else { vec![rng.below(256) as u8; 1 + rng.below(3) as usize] },
+            da_height: DaBlockHeight(rng.below(GENESIS_DA_HEIGHT + 1)),
+        })
+        .collect();
+    let blobs = (0..n_blobs)
+        .map(|i| BlobConfig {
+            blob_id: BlobId::from(rand32(&mut rng, 3, i)),
+            payload: vec![rng.below(256) as u8; rng.below(40) as usize],
+        })
+        .collect();
+    let contracts = contracts
+        .iter()
+        .enumerate()
+        .map(|(ci, (n_state, n_bal))| ContractConfig {
+            contract_id: ContractId::from(rand32(&mut rng, 4, ci as u64)),
+            code: vec![rng.below(256) as u8; 1 + rng.below(30) as usize],
+            tx_id: Bytes32::from(rand32(&mut rng, 5, ci as u64)),
+            output_index: rng.below(4) as u16,
+            tx_pointer_block_height: BlockHeight::from(rng.below(GENESIS_HEIGHT as u64 + 1) as u32),
+            tx_pointer_tx_idx: rng.below(5) as u16,
+            states: (0..*n_state)
+                .map(|si| ContractStateConfig {
+                    key: Bytes32::from(rand32(&mut rng, 6, si)),
+                    value: vec![rng.below(256) as u8; rng.below(70) as usize],
+                })
+                .collect(),
+            balances: (0..*n_bal)
+                .map(|bi| ContractBalanceConfig {
+                    asset_id: AssetId::from(rand32(&mut rng, 7, bi)),
+                    amount: 1 + rng.below(1000),
+                })
+                .collect(),
+        })
+        .collect();
+    StateConfig {
+        coins,
+        messages,
+        blobs,
+        contracts,
+        last_block: Some(LastBlockConfig {
+            block_height: BlockHeight::from(GENESIS_HEIGHT - 1),
+            da_block_height: DaBlockHeight(GENESIS_DA_HEIGHT),
+            ..Default::default()
+        }),
+    }
+}
+
+/// one start of the import: every table of `run_workers`, in its order, each through the
+/// real `ImportTask` with the real handler (wrapped); stops at the first error
+fn session_snapshot(reader: &SnapshotReader, dbs: &Dbs, plan: &Plan) -> (i128, Vec<(u64, usize, bool)>) {
+    let ctl = Ctl::new(plan);
+    let token = CancellationToken::new(Cancel(ctl.clone()));
+    let mut res = 0i128;
+    let height = BlockHeight::from(GENESIS_HEIGHT);
+    let da = DaBlockHeight(GENESIS_DA_HEIGHT);
+    let base = *reader.chain_config().consensus_parameters.base_asset_id();
+    macro_rules! task {
+        ($tid:expr, $db:expr, $src:ty, $dst:ty) => {
+            if res == 0 {
+                let groups = reader.read::<$src>().expect("read groups");
+                // spawn_worker_*: a table without groups gets no task
+                if groups.len() != 0 {
+                    let feed = Feed { inner: groups.into_iter(), pos: 0, tid: $tid, ctl: ctl.clone() };
+                    let handler =
+                        Wrap { inner: Handler::<$dst, $src>::new(height, da, &base), tid: $tid, ctl: ctl.clone() };
+                    let task = ImportTask::new(handler, feed, $db.clone(), ProgressReporter::default());
+                    if let Err(e) = task.run(token.clone()) {
+                        res = err_tag(&e);
+                    }
+                }
+            }
+        };
+    }
+    task!(0, dbs.on, Coins, Coins);
+    task!(1, dbs.on, Messages, Messages);
+    task!(2, dbs.on, BlobData, BlobData);
+    task!(3, dbs.on, ContractsRawCode, ContractsRawCode);
+    task!(4, dbs.on, ContractsLatestUtxo, ContractsLatestUtxo);
+    task!(5, dbs.on, ContractsState, ContractsState);
+    task!(6, dbs.on, ContractsAssets, ContractsAssets);
+    task!(7, dbs.on, ProcessedTransactions, ProcessedTransactions);
+    task!(8, dbs.on, FuelBlockMerkleData, FuelBlockMerkleData);
+    task!(9, dbs.on, FuelBlockMerkleMetadata, FuelBlockMerkleMetadata);
+    task!(10, dbs.off, TransactionStatuses, TransactionStatuses);
+    task!(11, dbs.off, OwnedTransactions, OwnedTransactions);
+    task!(12, dbs.off, SpentMessages, SpentMessages);
+    task!(13, dbs.off, Messages, OwnedMessageIds);
+    task!(14, dbs.off, Coins, OwnedCoins);
+    task!(15, dbs.off, FuelBlocks, OldFuelBlocks);
+    task!(16, dbs.off, Transactions, OldTransactions);
+    task!(17, dbs.off, SealedBlockConsensus, OldFuelBlockConsensus);
+    task!(18, dbs.off, ContractsInfo, ContractsInfo);
+    task!(19, dbs.off, Transactions, ContractsInfo);
+    task!(20, dbs.off, OldTransactions, ContractsInfo);
+    task!(21, dbs.off, OldFuelBlocks, OldFuelBlocks);
+    task!(22, dbs.off, OldFuelBlockConsensus, OldFuelBlockConsensus);
+    task!(23, dbs.off, OldTransactions, OldTransactions);
+    task!(24, dbs.off, FuelBlocks, FuelBlockIdsToHeights);
+    task!(25, dbs.off, OldFuelBlocks, FuelBlockIdsToHeights);
+    let evs = ctl.events.lock().unwrap().clone();
+    (res, evs)
+}
+
+/// (migration name, on-chain?) of a task id
+fn task_name(tid: u64) -> (String, bool) {
+    macro_rules! n {
+        ($on:expr, $src:ty, $dst:ty) => {
+            (migration_name::<$src, $dst>(), $on)
+        };
+    }
+    match tid {
+        0 | 100 => n!(true, Coins, Coins),
+        1 | 101 => n!(true, Messages, Messages),
+        2 => n!(true, BlobData, BlobData),
+        3 => n!(true, ContractsRawCode, ContractsRawCode),
+        4 => n!(true, ContractsLatestUtxo, ContractsLatestUtxo),
+        5 => n!(true, ContractsState, ContractsState),
+        6 => n!(true, ContractsAssets, ContractsAssets),
+        7 => n!(true, ProcessedTransactions, ProcessedTransactions),
+        8 => n!(true, FuelBlockMerkleData, FuelBlockMerkleData),
+        9 => n!(true, FuelBlockMerkleMetadata, FuelBlockMerkleMetadata),
+        10 => n!(false, TransactionStatuses, TransactionStatuses),
+        11 => n!(false, OwnedTransactions, OwnedTransactions),
+        12 => n!(false, SpentMessages, SpentMessages),
+        13 => n!(false, Messages, OwnedMessageIds),
+        14 => n!(false, Coins, OwnedCoins),
+        15 => n!(false, FuelBlocks, OldFuelBlocks),
+        16 => n!(false, Transactions, OldTransactions),
+        17 => n!(false, SealedBlockConsensus, OldFuelBlockConsensus),
+        18 => n!(false, ContractsInfo, ContractsInfo),
+        19 => n!(false, Transactions, ContractsInfo),
+        20 => n!(false, OldTransactions, ContractsInfo),
+        21 => n!(false, OldFuelBlocks, OldFuelBlocks),
+        22 => n!(false, OldFuelBlockConsensus, OldFuelBlockConsensus),
+        23 => n!(false, OldTransactions, OldTransactions),
+        24 => n!(false, FuelBlocks, FuelBlockIdsToHeights),
+        25 => n!(false, OldFuelBlocks, FuelBlockIdsToHeights),
+        t => panic!("task id {t}"),
+    }
+}
+
+fn progress_of(tid: u64, dbs: &Dbs) -> Option<u64> {
+    let (name, on) = task_name(tid);
+    let p = if on {
+        GenesisProgressInspect::<OnChain>::genesis_progress(&dbs.on, &name)
+    } else {
+        GenesisProgressInspect::<OffChain>::genesis_progress(&dbs.off, &name)
+    };
+    p.map(|x| x as u64)
+}
+
+fn set_progress(tid: u64, v: u64, dbs: &mut Dbs) {
+    let (name, on) = task_name(tid);
+    let v = usize::try_from(v).expect("usize");
+    if on {
+        GenesisProgressMutate::<OnChain>::update_genesis_progress(&mut dbs.on, &name, v).expect("progress row");
+    } else {
+        GenesisProgressMutate::<OffChain>::update_genesis_progress(&mut dbs.off, &name, v).expect("progress row");
+    }
+}
+
+/// the migration names of all tasks of one database must differ (each owns a progress row)
+fn assert_names_distinct() {
+    let mut seen = std::collections::HashSet::new();
+    for tid in 0..26 {
+        assert!(seen.insert(task_name(tid)), "two tasks share a progress row");
+    }
+}
+
+// ---------------------------------------------------------------------------------------
+
+fn parse_plan(t: &T) -> Plan {
+    let f = t.as_l();
+    let cancel_at = f[0].as_l().first().map(|x| x.as_usize());
+    let fl = f[1].as_l();
+    let fail = if fl.is_empty() { None } else { Some((fl[0].as_u64(), fl[1].as_usize(), fl[2].as_u64())) };
+    Plan { cancel_at, fail }
+}
+
+fn sess_t(res: i128, evs: &[(u64, usize, bool)], ids: &[u64], dbs: &Dbs) -> T {
+    T::l(vec![
+        T::i(res),
+        T::l(evs.iter().map(|(t, i, c)| T::l(vec![T::n(*t), T::n(*i as u64), T::b(*c)])).collect()),
+        T::l(ids.iter().map(|t| T::l(vec![T::n(*t), T::opt(progress_of(*t, dbs))])).collect()),
+    ])
+}
+
+fn run_c40(input: &T) -> T {
+    let input = input.clone();
+    catch(move || {
+        assert_names_distinct();
+        let f = input.as_l();
+        let mode = f[0].as_u64();
+        let init: Vec<(u64, u64)> = f[2].as_l().iter().map(|p| (p.as_l()[0].as_u64(), p.as_l()[1].as_u64())).collect();
+        let plans: Vec<Plan> = f[3].as_l().iter().map(parse_plan).collect();
+        let fresh = |init: &[(u64, u64)]| {
+            let mut dbs = Dbs::new();
+            for (t, v) in init {
+                set_progress(*t, *v, &mut dbs);
+            }
+            dbs
+        };
+        // mode-specific: task ids in order, one-session runner
+        let rec_tasks: Vec<RecTask>;
+        let reader: Option<SnapshotReader>;
+        let dir: Option<PathBuf>;
+        let ids: Vec<u64>;
+        if mode == 0 {
+            rec_tasks = f[1]
+                .as_l()
+                .iter()
+                .map(|t| {
+                    let tf = t.as_l();
+                    let groups = tf[1]
+                        .as_l()
+                        .iter()
+                        .map(|g| g.as_l().iter().map(|e| (e.as_l()[0].as_u64(), e.as_l()[1].as_u64())).collect())
+                        .collect();
+                    (tf[0].as_u64(), groups)
+                })
+                .collect();
+            ids = rec_tasks.iter().map(|t| t.0).collect();
+            reader = None;
+            dir = None;
+        } else {
+            let s = f[1].as_l();
+            let seed = s[0].as_u64();
+            let g = s[1].as_usize();
+            let contracts: Vec<(u64, u64)> =
+                s[5].as_l().iter().map(|c| (c.as_l()[0].as_u64(), c.as_l()[1].as_u64())).collect();
+            let bad = s[6].as_l().first().map(|x| x.as_u64());
+            let state = gen_state(seed, s[2].as_u64(), s[3].as_u64(), s[4].as_u64(), &contracts, bad);
+            let d = temp_dir();
+            let meta = SnapshotWriter::json(&d)
+                .write_state_config(state, &ChainConfig::local_testnet())
+                .expect("write snapshot");
+            reader = Some(SnapshotReader::open_w_config(meta, g).expect("open snapshot"));
+            dir = Some(d);
+            rec_tasks = vec![];
+            ids = vec![0, 1, 2, 3, 4, 5, 6, 13, 14];
+        }
+        let session = |dbs: &Dbs, plan: &Plan| match &reader {
+            None => session_recording(&rec_tasks, dbs, plan),
+            Some(r) => session_snapshot(r, dbs, plan),
+        };
+        // interrupted sessions, then the run to completion
+        let dbs = fresh(&init);
+        let mut sessions = vec![];
+        for p in &plans {
+            let (res, evs) = session(&dbs, p);
+            sessions.push(sess_t(res, &evs, &ids, &dbs));
+        }
+        let (res, evs) = session(&dbs, &Plan::default());
+        let fin = sess_t(res, &evs, &ids, &dbs);
+        // the uninterrupted import
+        let dbs_u = fresh(&init);
+        let (res, evs) = session(&dbs_u, &Plan::default());
+        let uni = sess_t(res, &evs, &ids, &dbs_u);
+        let digs = T::l(vec![
+            T::n(digest(&dbs.on)),
+            T::n(digest(&dbs.off)),
+            T::n(digest(&dbs_u.on)),
+            T::n(digest(&dbs_u.off)),
+        ]);
+        let dump = if mode == 0 { dump_recording(&dbs) } else { T::l(vec![]) };
+        if let Some(d) = dir {
+            let _ = std::fs::remove_dir_all(d);
+        }
+        T::l(vec![T::l(sessions), fin, uni, digs, dump])
+    })
+}
+
+// ---------------------------------------------------------------------------------------
+// generator of C40
+
+fn plan_t(cancel: Option<u64>, fail: Option<(u64, u64, u64)>) -> T {
+    T::l(vec![
+        T::opt(cancel),
+        match fail {
+            None => T::l(vec![]),
+            Some((t, i, k)) => T::l(vec![T::n(t), T::n(i), T::n(k)]),
+        },
+    ])
+}
+
+/// every single interruption of an import with these task sizes: each failure kind at each
+/// group, and the cancellation after each number of completed groups
+fn single_interruptions(sizes: &[(u64, u64)]) -> Vec<Vec<T>> {
+    let mut out = vec![];
+    let total: u64 = sizes.iter().map(|s| s.1).sum();
+    for (tid, n) in sizes {
+        for idx in 0..*n {
+            for kind in 0..4 {
+                out.push(vec![plan_t(None, Some((*tid, idx, kind)))]);
+            }
+        }
+    }
+    for c in 0..=total {
+        out.push(vec![plan_t(Some(c), None)]);
+    }
+    out
+}
+
+fn random_plans(rng: &mut Rng, sizes: &[(u64, u64)], max: u64) -> Vec<T> {
+    let total: u64 = sizes.iter().map(|s| s.1).sum();
+    let n = rng.below(max + 1);
+    (0..n)
+        .map(|_| {
+            let cancel = if rng.chance(1, 2) { Some(rng.below(total + 2)) } else { None };
+            let fail = if rng.chance(2, 3) && !sizes.is_empty() {
+                let (tid, n) = *rng.pick(sizes);
+                Some((tid, rng.below(n + 1), rng.below(4)))
+            } else {
+                None
+            };
+            plan_t(cancel, fail)
+        })
+        .collect()
+}
+
+fn random_init(rng: &mut Rng, sizes: &[(u64, u64)]) -> T {
+    let mut rows = vec![];
+    if rng.chance(1, 5) {
+        for (tid, n) in sizes {
+            if rng.chance(1, 2) {
+                let v = match rng.below(6) {
+                    0 => 0,
+                    1 => n.saturating_sub(1),
+                    2 => *n,
+                    3 => rng.below(n + 2),
+                    4 => u64::MAX,
+                    _ => u64::MAX - 1,
+                };
+                rows.push(T::l(vec![T::n(*tid), T::n(v)]));
+            }
+        }
+    }
+    T::l(rows)
+}
+
+fn gen_recording_tasks(rng: &mut Rng) -> (T, Vec<(u64, u64)>) {
+    let order: Vec<u64> = match rng.below(5) {
+        0 => vec![100],
+        1 => vec![101],
+        2 => vec![101, 100],
+        _ => vec![100, 101],
+    };
+    let mut tasks = vec![];
+    let mut sizes = vec![];
+    for tid in order {
+        let n_groups = rng.below(5);
+        let mut next_key = 0u64;
+        let groups: Vec<T> = (0..n_groups)
+            .map(|_| {
+                let len = rng.below(4);
+                T::l((0..len)
+                    .map(|_| {
+                        // mostly fresh keys; sometimes one that is (or will be) present
+                        let k = if rng.chance(1, 12) { rng.below(8) } else { next_key };
+                        next_key += 1;
+                        T::l(vec![T::n(k), T::n(rng.below(50))])
+                    })
+                    .collect())
+            })
+            .collect();
+        sizes.push((tid, n_groups));
+        tasks.push(T::l(vec![T::n(tid), T::l(groups)]));
+    }
+    (T::l(tasks), sizes)
+}
+
+fn ceil_div(n: u64, g: u64) -> u64 {
+    n.div_ceil(g)
+}
+
+fn gen_snapshot_spec(rng: &mut Rng, small: bool) -> (T, Vec<(u64, u64)>) {
+    let g = *rng.pick(&[1u64, 2, 3, 7]);
+    let m = if small { 4 } else { 8 };
+    let n_coins = rng.below(m + 1);
+    let n_msgs = rng.below(m);
+    let n_blobs = rng.below(3);
+    let n_contracts = rng.below(4);
+    let contracts: Vec<(u64, u64)> = (0..n_contracts).map(|_| (rng.below(m), rng.below(4))).collect();
+    let bad = if n_coins > 0 && rng.chance(1, 8) { Some(rng.below(n_coins)) } else { None };
+    let seed = rng.below(1 << 32);
+    let n_state: u64 = contracts.iter().map(|c| c.0).sum();
+    let n_bal: u64 = contracts.iter().map(|c| c.1).sum();
+    let sizes = vec![
+        (0, ceil_div(n_coins, g)),
+        (1, ceil_div(n_msgs, g)),
+        (2, ceil_div(n_blobs, g)),
+        (3, ceil_div(n_contracts, g)),
+        (4, ceil_div(n_contracts, g)),
+        (5, ceil_div(n_state, g)),
+        (6, ceil_div(n_bal, g)),
+        (13, ceil_div(n_msgs, g)),
+        (14, ceil_div(n_coins, g)),
+    ];
+    let spec = T::l(vec![
+        T::n(seed),
+        T::n(g),
+        T::n(n_coins),
+        T::n(n_msgs),
+        T::n(n_blobs),
+        T::l(contracts.iter().map(|c| T::l(vec![T::n(c.0), T::n(c.1)])).collect()),
+        T::opt(bad),
+    ]);
+    (spec, sizes)
+}
+
+fn gen_c40(rng: &mut Rng, n: u64, tier: &str) -> Vec<T> {
+    let mut cases = vec![];
+    let case = |mode: u64, spec: &T, init: T, plans: Vec<T>| T::l(vec![T::n(mode), spec.clone(), init, T::l(plans)]);
+    // exhaustive single interruptions of a few imports of each mode
+    let sets = if tier == "thorough" { 12 } else { 3 };
+    for _ in 0..sets {
+        let (spec, sizes) = gen_recording_tasks(rng);
+        for plans in single_interruptions(&sizes) {
+            cases.push(case(0, &spec, T::l(vec![]), plans));
+        }
+        let (spec, sizes) = gen_snapshot_spec(rng, true);
+        for plans in single_interruptions(&sizes) {
+            cases.push(case(1, &spec, T::l(vec![]), plans));
+        }
+    }
+    // random schedules
+    for i in 0..n {
+        if i % 2 == 0 {
+            let (spec, sizes) = gen_recording_tasks(rng);
+            let init = random_init(rng, &sizes);
+            let plans = random_plans(rng, &sizes, 5);
+            cases.push(case(0, &spec, init, plans));
+        } else {
+            let (spec, sizes) = gen_snapshot_spec(rng, false);
+            let init = random_init(rng, &sizes);
+            let plans = random_plans(rng, &sizes, 6);
+            cases.push(case(1, &spec, init, plans));
+        }
+    }
+    cases
+}
+
+fn gen(prop: &str, rng: &mut Rng, n: u64, tier: &str) -> Vec<T> {
+    match prop {
+        "C40" => gen_c40(rng, n, tier),
+        "C39" => roundtrip::gen_c39(rng, n, tier),
+        p => panic!("unknown property {p}"),
+    }
+}
+
+fn run(prop: &str, input: &T) -> T {
+    match prop {
+        "C40" => run_c40(input),
+        "C39" => roundtrip::run_c39(input),
+        p => panic!("unknown property {p}"),
+    }
+}
+
 fn main() {
-    let _ = std::any::type_name::<SnapshotImporter>();
-    println!("{}", migration_name::<fuel_core_storage::tables::Coins, fuel_core_storage::tables::Coins>());
+    vcommon::main_protocol(gen, run);
 }
